@@ -511,8 +511,22 @@ class BaseRepository(ABC):
                     for file in release.get(hash_type.value, []):
                         path = Path(file["name"])
 
-                        if not is_safe_path(mirror_path, path):
+                        if not is_safe_path(
+                            mirror_path, path
+                        ) or not is_safe_path(
+                            mirror_path, DownloadFile.uncompressed_path(path)
+                        ):
                             self._log.warning(f"Skipping unsafe path: {path}")
+                            continue
+
+                        # The hash sum is used as a file name under by-hash/
+                        if "/" in file[hash_type.value] or file[hash_type.value] in (
+                            ".",
+                            "..",
+                        ):
+                            self._log.warning(
+                                f"Skipping unsafe hash sum for path: {path}"
+                            )
                             continue
 
                         try:
